@@ -1,3 +1,500 @@
+// C45: blocks built by an honest generator pass honest verification.
+//
+// For every previous state (genesis; a scripted round-1 successor in which sender c0 has already
+// spent nonce 1), every generator of the tier's generator set and EVERY ordered selection (= pool
+// contents in every pool iteration order) of up to 3 (4) distinct signed transactions from the
+// alphabet below, the real miner.Chain.generateBlock is run as that generator over an in-memory
+// "txn" collection that yields the pool in exactly that order. The block then goes over the wire
+// (datastore.ToMsgpack -> FromMsgpack into a fresh block, as VerifyBlockSender / the N2N receiver
+// do; every second case JSON), and another miner with a cold state cache runs the real
+// miner.Chain.VerifyBlock (Validate, ValidateTransactions, cost check, ComputeState,
+// verifySmartContracts, sign) on the decoded block against the same previous state.
+//
+// Alphabet per sender s in {c0,c1} (n = nonce of s in the previous state):
+//
+//	ok        send, nonce n+1                      badsig   send, nonce n+1, signature of another hash
+//	past      send, nonce n (n=0: nonce 0)         fut1     send, nonce n+2
+//	futfar    send, nonce n+2+future_nonce+1       dupfee   send, nonce n+1, higher fee
+//	scfail    faucet.pour above the limit, n+1 (chargeable failure)   exempt   faucet.pour, nonce n+1 (fee-exempt function)
+//
+// Oracle (from the statement): verification succeeds; the verifier's recomputed state root equals
+// the generator's and the declared one; every transaction's output, output hash and status are
+// equal on both sides; the declared change count equals the recomputed one; the block contains
+// no transaction hash twice; per sender the nonces in block order are n+1, n+2, ...; the summed
+// estimated cost is <= max_block_cost; each built-in function name occurs at most once.
 package main
 
-func c45() {}
+import (
+	"bytes"
+	"context"
+	"encoding/hex"
+	"fmt"
+	"sort"
+	"strings"
+	"time"
+
+	"0chain.net/chaincore/block"
+	"0chain.net/chaincore/chain"
+	"0chain.net/chaincore/node"
+	"0chain.net/chaincore/round"
+	"0chain.net/chaincore/transaction"
+	"0chain.net/core/common"
+	"0chain.net/core/datastore"
+	"0chain.net/core/encryption"
+	"0chain.net/miner"
+	"github.com/0chain/common/core/currency"
+	"github.com/0chain/common/core/util"
+	"verif/lib/ev"
+	"verif/lib/world"
+)
+
+type c45txn struct {
+	Name string
+	Kind string
+	From int
+	T    *transaction.Transaction
+}
+
+type c45env struct {
+	m    *minerWorld
+	w    *world.World
+	now  common.Timestamp
+	self int
+}
+
+// become makes this process act as miner i (node.Self carries the keys that sign blocks, built-in
+// transactions and tickets).
+func (e *c45env) become(i int) {
+	if err := node.Self.SetSignatureScheme(e.w.Miners[i].Scheme); err != nil {
+		ev.Fatal("become: %v", err)
+	}
+	e.self = i
+}
+
+var c45Builtin = map[string]bool{"payFees": true, "generate_challenge": true, "blobber_block_rewards": true, "commit_settings_changes": true}
+
+func c45Options(tight bool) world.Options {
+	o := c45OptionsBase()
+	if tight {
+		// round 2: built-ins cost 2806, one faucet call 100, a send 10: one contract call fits, a second does not
+		o.Viper["server_chain.block.max_block_cost"] = 2950
+	}
+	return o
+}
+
+func c45OptionsBase() world.Options {
+	return world.Options{
+		Viper: map[string]any{
+			// creation-date checks (txn within TXN_TIME_TOLERANCE of the block's wall-clock creation
+			// date) can never reject: the alphabet's transactions carry the worker's start time
+			"server_chain.transaction.timeout":                  1000000000,
+			"server_chain.smart_contract.setting_update_period": 2,
+		},
+		SC: map[string]any{
+			"smart_contracts.storagesc.challenge_generation_gap":    1,
+			"smart_contracts.storagesc.block_reward.trigger_period": 2,
+		},
+	}
+}
+
+// alphabet builds the signed transactions for a previous state in which the senders' nonces are n[s].
+func (e *c45env) alphabet(n []int64, salt string) []c45txn {
+	w := e.w
+	var out []c45txn
+	futWin := int64(e.m.MC.ChainConfig.TxnFutureNonce())
+	to := w.Clients[2].ID
+	for s := 0; s < 2; s++ {
+		from := w.Clients[s]
+		mk := func(kind string, nonce int64, value, fee currency.Coin, typ int, toID, data string) {
+			t := w.Txn(world.TxnSpec{From: from, To: toID, Type: typ, Value: value, Fee: fee, Nonce: nonce, Data: data, Time: e.now})
+			out = append(out, c45txn{Name: fmt.Sprintf("%s(c%d,nonce=%d)", kind, s, nonce), Kind: kind, From: s, T: t})
+		}
+		fee := currency.Coin(1e8) // well above the estimated fee of every transaction in the alphabet
+		mk("ok", n[s]+1, 1000+currency.Coin(s), fee, transaction.TxnTypeSend, to, "")
+		mk("badsig", n[s]+1, 2000+currency.Coin(s), fee, transaction.TxnTypeSend, to, "")
+		bad := out[len(out)-1].T
+		sig, err := from.Scheme.Sign(encryption.Hash("verif-c45-other-hash" + salt))
+		if err != nil {
+			ev.Fatal("sign: %v", err)
+		}
+		bad.Signature = sig
+		mk("past", n[s], 3000+currency.Coin(s), fee, transaction.TxnTypeSend, to, "")
+		mk("fut1", n[s]+2, 4000+currency.Coin(s), fee, transaction.TxnTypeSend, to, "")
+		mk("futfar", n[s]+2+futWin+1, 5000+currency.Coin(s), fee, transaction.TxnTypeSend, to, "")
+		mk("dupfee", n[s]+1, 6000+currency.Coin(s), 2*fee, transaction.TxnTypeSend, to, "")
+		mk("scfail", n[s]+1, 1e15, fee, transaction.TxnTypeSmartContract, world.SCAddresses["faucetsc"], world.SC("pour", nil))
+		mk("exempt", n[s]+1, 0, 0, transaction.TxnTypeSmartContract, world.SCAddresses["faucetsc"], world.SC("pour", nil))
+	}
+	return out
+}
+
+type c45result struct {
+	GenErr    string
+	VerErr    string
+	Block     *block.Block // generator's block
+	Recv      *block.Block // verifier's decoded block
+	Included  []string
+	CostSum   int
+	NumBuiltin int
+}
+
+// prepareBlock fills the fields generateRoundBlock fills before it calls GenerateBlock.
+func (e *c45env) prepareBlock(parent *block.Block, rn int64, seed int64) (*block.Block, *miner.Round) {
+	mc := e.m.MC
+	mr := mc.CreateRound(round.NewRound(rn))
+	mr = mc.AddRound(mr).(*miner.Round)
+	mc.SetRandomSeed(mr, seed)
+	b := block.NewBlock(mc.GetKey(), rn)
+	lfmbr := mc.GetLatestFinalizedMagicBlockRound(rn)
+	if lfmbr == nil {
+		ev.Fatal("no lfmbr")
+	}
+	b.LatestFinalizedMagicBlockHash = lfmbr.Hash
+	b.LatestFinalizedMagicBlockRound = lfmbr.Round
+	b.MinerID = node.Self.Underlying().GetKey()
+	b.SetRoundRandomSeed(seed)
+	mc.SetPreviousBlock(mr, b, parent)
+	return b, mr
+}
+
+// chainOf re-registers the given ancestor blocks (oldest first; genesis is always there).
+func (e *c45env) resetTo(rn int64, ancestors []*block.Block) {
+	e.m.reset()
+	for _, a := range ancestors {
+		e.m.MC.AddBlock(a)
+		r := e.m.MC.CreateRound(round.NewRound(a.Round))
+		r = e.m.MC.AddRound(r).(*miner.Round)
+		e.m.MC.SetRandomSeed(r, a.GetRoundRandomSeed())
+	}
+	e.w.Chain.VerifSetCurrentRound(rn)
+}
+
+func (e *c45env) setPool(order []*transaction.Transaction) {
+	e.w.Store.DeleteAll("txn")
+	keys := make([]string, 0, len(order))
+	for _, t := range order {
+		c := t.Clone()
+		if err := e.w.Store.Write(e.m.Ctx, c); err != nil {
+			ev.Fatal("pool write: %v", err)
+		}
+		keys = append(keys, t.Hash)
+	}
+	e.w.Store.SetCollectionOrder("txn", keys)
+}
+
+func (e *c45env) generate(gen int, parent *block.Block, ancestors []*block.Block, rn, seed int64, pool []*transaction.Transaction) (*block.Block, error) {
+	e.become(gen)
+	e.resetTo(rn, ancestors)
+	e.setPool(pool)
+	b, _ := e.prepareBlock(parent, rn, seed)
+	ctx, cancel := context.WithCancel(e.m.Ctx)
+	defer cancel()
+	err := e.m.MC.VerifGenerateBlock(ctx, b, e.m.MC, true, make(chan struct{}, 1))
+	return b, err
+}
+
+func (e *c45env) wire(b *block.Block, json bool) (*block.Block, error) {
+	rb := datastore.GetEntityMetadata("block").Instance().(*block.Block)
+	if json {
+		buf := datastore.ToJSON(b)
+		if err := datastore.FromJSON(bytes.NewReader(buf.Bytes()), rb); err != nil {
+			return nil, err
+		}
+		return rb, nil
+	}
+	buf := datastore.ToMsgpack(b)
+	if err := datastore.FromMsgpack(bytes.NewReader(buf.Bytes()), rb); err != nil {
+		return nil, err
+	}
+	return rb, nil
+}
+
+func (e *c45env) verify(ver int, rb *block.Block, ancestors []*block.Block) (*block.BlockVerificationTicket, error) {
+	e.become(ver)
+	e.resetTo(rb.Round, ancestors)
+	e.m.MC.SetupStateCache() // another node: nothing of the generator's run is cached
+	r := e.m.MC.CreateRound(round.NewRound(rb.Round))
+	r = e.m.MC.AddRound(r).(*miner.Round)
+	e.m.MC.SetRandomSeed(r, rb.GetRoundRandomSeed())
+	ctx, cancel := context.WithCancel(e.m.Ctx)
+	defer cancel()
+	return e.m.MC.VerifyBlock(ctx, rb)
+}
+
+func c45() {
+	run := ev.Start("C45")
+	maxPool := run.Pick(3, 4)
+	if _, _, isWorker := shard(); isWorker {
+		c45worker(run, maxPool)
+		return
+	}
+	t := fanout(run)
+	report(run, t)
+	run.Rule = "previous state in {genesis, scripted round-1 successor} x generator x every ordered selection of <= k distinct transactions from the 16-letter alphabet (8 kinds x 2 senders) = every pool content in every pool iteration order; each case: real generateBlock, wire round trip, real VerifyBlock by another miner with a cold state cache; distinct = (previous state, sorted kinds in the pool, kinds included in block order, verification result) classes"
+	run.Bounds["max_pool_size"] = maxPool
+	run.Bounds["alphabet"] = 16
+	run.Bounds["previous_states"] = 2
+	run.Assumptions = []string{
+		"common.Now() is the wall clock: the chain's transaction time tolerance is raised to 1e9 s and the alphabet's transactions carry the worker's start time, so no creation-date check can reject; the wall clock enters only the block creation date and the hashes of the generator's built-in transactions, which the oracle does not look at (too-old / too-new transactions are outside the alphabet)",
+		"pool = distinct transactions (a real pool is keyed by hash); 'duplicate nonce' is two different transactions with the same nonce",
+		"generator and verifier share one process: node.Self is switched between miner identities, the chain's block/round registries are reset before each step and the verifier gets a fresh state cache; the node DB holds only genesis, so both sides read the previous state from the same in-memory tries",
+		"storage settings: challenge_generation_gap=1, block_reward.trigger_period=2, setting_update_period=2, so that round 1 carries payFees+generate_challenge and round 2 all four built-in transactions",
+	}
+	run.Finish()
+}
+
+func c45worker(run *ev.Run, maxPool int) {
+	idx, nsh, _ := shard()
+	deadline := workerDeadline(run, 170, 840)
+	// two configurations: 3/4 of the workers run the default block cost limit, 1/4 a tight one
+	// (only the round-2 previous state, where the limit bites)
+	tight := nsh >= 4 && idx >= nsh-nsh/4
+	if tight {
+		idx, nsh = idx-(nsh-nsh/4), nsh/4
+	} else if nsh >= 4 {
+		nsh = nsh - nsh/4
+	}
+	cfg := "default-cost-limit"
+	if tight {
+		cfg = "tight-cost-limit"
+	}
+	w := world.New(c45Options(tight))
+	m := setupMiner(w)
+	e := &c45env{m: m, w: w, now: common.Now()}
+	so := newShardOut()
+
+	// previous states
+	type prev struct {
+		Name      string
+		Block     *block.Block
+		Ancestors []*block.Block
+		Nonces    []int64
+		Round     int64 // round of the block to generate
+	}
+	noncesOf := func(b *block.Block) []int64 {
+		_, n0 := world.Balance(b.ClientState, w.Clients[0].ID)
+		_, n1 := world.Balance(b.ClientState, w.Clients[1].ID)
+		return []int64{n0, n1}
+	}
+	prevs := []prev{{Name: "genesis", Block: w.Genesis, Nonces: noncesOf(w.Genesis), Round: 1}}
+	{
+		// scripted successor: c0 sends once in round 1 (generated and verified by the real code too)
+		a0 := e.alphabet(noncesOf(w.Genesis), "script")
+		b1, err := e.generate(1, w.Genesis, nil, 1, 7001, []*transaction.Transaction{a0[0].T})
+		if err != nil {
+			ev.Fatal("scripted block: %v", err)
+		}
+		if n := noncesOf(b1); n[0] != noncesOf(w.Genesis)[0]+1 {
+			ev.Fatal("scripted block did not include the send: nonces %v", n)
+		}
+		prevs = append(prevs, prev{Name: "round1(ok(c0))", Block: b1, Ancestors: []*block.Block{b1}, Nonces: noncesOf(b1), Round: 2})
+	}
+	gens := []int{1}
+	if run.Thorough() {
+		gens = []int{1, 2}
+	}
+	counter := 0
+	for _, p := range prevs {
+		if tight && p.Round != 2 {
+			continue
+		}
+		alpha := e.alphabet(p.Nonces, p.Name)
+		for _, gen := range gens {
+			sel := make([]int, 0, maxPool)
+			var rec func()
+			rec = func() {
+				if len(sel) > 0 {
+					counter++
+					if counter%nsh == idx {
+						if so.Capped == "" && time.Now().After(deadline) {
+							so.Capped = "worker time budget reached"
+						}
+						if so.Capped == "" {
+							c45case(e, so, cfg+"/"+p.Name, p.Block, p.Ancestors, p.Nonces, p.Round, gen, alpha, sel, counter%2 == 0)
+						}
+					}
+				}
+				if len(sel) == maxPool {
+					return
+				}
+				for i := range alpha {
+					used := false
+					for _, j := range sel {
+						if j == i {
+							used = true
+						}
+					}
+					if used {
+						continue
+					}
+					sel = append(sel, i)
+					rec()
+					sel = sel[:len(sel)-1]
+				}
+			}
+			rec()
+		}
+	}
+	writeShard(so)
+}
+
+func c45case(e *c45env, so *shardOut, prevName string, parent *block.Block, ancestors []*block.Block, nonces []int64, rn int64, gen int, alpha []c45txn, sel []int, json bool) {
+	so.States++
+	names := make([]string, len(sel))
+	kinds := make([]string, len(sel))
+	pool := make([]*transaction.Transaction, len(sel))
+	byHash := map[string]c45txn{}
+	for i, j := range sel {
+		names[i] = alpha[j].Name
+		kinds[i] = fmt.Sprintf("%s%d", alpha[j].Kind, alpha[j].From)
+		pool[i] = alpha[j].T
+		byHash[alpha[j].T.Hash] = alpha[j]
+	}
+	ver := (gen + 1) % len(e.w.Miners)
+	if ver == 0 {
+		ver = 3
+	}
+	replay := map[string]any{"previous_state": prevName, "round": rn, "generator": fmt.Sprintf("m%d", gen), "verifier": fmt.Sprintf("m%d", ver), "pool_in_iteration_order": names, "wire": map[bool]string{true: "json", false: "msgpack"}[json]}
+	tag := func(s string) string { return "C45:" + s }
+	sortedKinds := append([]string{}, kinds...)
+	sort.Strings(sortedKinds)
+
+	seed := int64(9000 + rn)
+	b, err := e.generate(gen, parent, ancestors, rn, seed, pool)
+	so.Transitions++
+	if err != nil {
+		so.Outcomes[fmt.Sprintf("%s/gen-error:%s", prevName, errCode(err))]++
+		// the statement is about blocks that are generated; a generator that produces none is legal
+		return
+	}
+	// structure of the generated block
+	seen := map[string]bool{}
+	next := map[string]int64{}
+	for s := 0; s < 2; s++ {
+		next[e.w.Clients[s].ID] = nonces[s]
+	}
+	builtins := map[string]int{}
+	var included []string
+	genID := e.w.Miners[gen].ID
+	_, genNonce := world.Balance(parent.ClientState, genID)
+	next[genID] = genNonce
+	for _, t := range b.Txns {
+		so.Evals++
+		if seen[t.Hash] {
+			so.violate(tag("generateBlock:transaction-twice"), "the generated block contains transaction "+t.Hash[:8]+" twice", replay)
+		}
+		seen[t.Hash] = true
+		cid := t.ClientID
+		if cid == "" {
+			cid = encryption.Hash(mustHexBytes(t.PublicKey))
+		}
+		if want, ok := next[cid]; ok {
+			if t.Nonce != want+1 {
+				so.violate(tag("generateBlock:nonces-not-consecutive"), fmt.Sprintf("sender %s: nonce %d follows %d in the generated block", cid[:8], t.Nonce, want), replay)
+			}
+			next[cid] = t.Nonce
+		}
+		if a, ok := byHash[t.Hash]; ok {
+			included = append(included, fmt.Sprintf("%s%d", a.Kind, a.From))
+		} else if t.TransactionType == transaction.TxnTypeSmartContract && c45Builtin[t.FunctionName] {
+			builtins[t.FunctionName]++
+			if builtins[t.FunctionName] > 1 {
+				so.violate(tag("generateBlock:built-in-twice:"+t.FunctionName), "built-in transaction "+t.FunctionName+" occurs twice in the generated block", replay)
+			}
+		} else {
+			so.violate(tag("generateBlock:foreign-transaction"), "the generated block contains a transaction that is neither in the pool nor a built-in: "+t.Hash[:8], replay)
+		}
+	}
+	// cost (estimated against the LFB exactly as the protocol defines block cost)
+	cost := 0
+	lfb := e.m.MC.GetLatestFinalizedBlock()
+	for _, t := range b.Txns {
+		c, err := e.m.MC.EstimateTransactionCost(e.m.Ctx, lfb, t, chain.WithSync())
+		if err != nil {
+			so.violate(tag("generateBlock:cost-not-estimable"), "cost of an included transaction cannot be estimated: "+err.Error(), replay)
+			continue
+		}
+		cost += c
+	}
+	so.Evals++
+	if cost > e.m.MC.ChainConfig.MaxBlockCost() {
+		so.violate(tag("generateBlock:cost-above-limit"), fmt.Sprintf("block cost %d > max_block_cost %d", cost, e.m.MC.ChainConfig.MaxBlockCost()), replay)
+	}
+	genRoot := util.ToHex(b.ClientState.GetRoot())
+	genChanges := b.ClientState.GetChangeCount()
+
+	// the wire and the verifier
+	rb, err := e.wire(b, json)
+	if err != nil {
+		so.violate(tag("wire:decode-failed"), "the generated block does not survive the wire: "+err.Error(), replay)
+		return
+	}
+	_, verr := e.verify(ver, rb, ancestors)
+	so.Transitions++
+	so.Evals++
+	res := "ok"
+	if verr != nil {
+		res = "rejected:" + errCode(verr)
+		hasBadSig := false
+		for _, k := range included {
+			if strings.HasPrefix(k, "badsig") {
+				hasBadSig = true
+			}
+		}
+		if hasBadSig {
+			so.violate(tag("generateBlock:pool-transaction-with-invalid-signature-included:block-rejected"), fmt.Sprintf("generateBlock does not check signatures of pool transactions: block generated by m%d from pool %v contains a transaction whose signature is invalid and is rejected by m%d: %v", gen, names, ver, verr), replay)
+		} else {
+			so.violate(tag("VerifyBlock:honest-block-rejected:"+errCode(verr)), fmt.Sprintf("block generated by m%d from pool %v is rejected by m%d: %v", gen, names, ver, verr), replay)
+		}
+	} else {
+		if rb.ClientState == nil || util.ToHex(rb.ClientState.GetRoot()) != genRoot || util.ToHex(rb.ClientStateHash) != genRoot {
+			so.violate(tag("VerifyBlock:state-root-differs"), "verifier's recomputed state root differs from the generator's", replay)
+		}
+		so.Evals++
+		if rb.ClientState != nil && (rb.ClientState.GetChangeCount() != genChanges || rb.StateChangesCount != genChanges) {
+			so.violate(tag("VerifyBlock:change-count-differs"), fmt.Sprintf("change count: generator %d, declared %d, verifier %d", genChanges, rb.StateChangesCount, rb.ClientState.GetChangeCount()), replay)
+		}
+		if len(rb.Txns) != len(b.Txns) {
+			so.violate(tag("wire:transaction-count-differs"), "transaction count changed on the wire", replay)
+		} else {
+			for i := range b.Txns {
+				so.Evals++
+				g, v := b.Txns[i], rb.Txns[i]
+				if g.Hash != v.Hash || g.TransactionOutput != v.TransactionOutput || g.OutputHash != v.OutputHash || g.Status != v.Status {
+					so.violate(tag("VerifyBlock:transaction-output-differs"), fmt.Sprintf("transaction %d (%s): generator output %q status %d, verifier output %q status %d", i, g.Hash[:8], g.TransactionOutput, g.Status, v.TransactionOutput, v.Status), replay)
+				}
+			}
+		}
+	}
+	bi := make([]string, 0, len(builtins))
+	for k := range builtins {
+		bi = append(bi, k)
+	}
+	sort.Strings(bi)
+	_ = sortedKinds
+	so.Outcomes[fmt.Sprintf("%s/included[%s]/builtins=%d/%s", prevName, strings.Join(included, ","), len(bi), res)]++
+	so.Counters["included_pool_txns"] += int64(len(included))
+	so.Counters["blocks_verified"]++
+	if so.States%211 == 1 {
+		so.sample(map[string]any{"previous_state": prevName, "pool": names, "included": included, "builtins": bi, "cost": cost, "verify": res})
+	}
+}
+
+func errCode(err error) string {
+	if ce, ok := err.(*common.Error); ok {
+		return ce.Code
+	}
+	s := err.Error()
+	if len(s) > 40 {
+		s = s[:40]
+	}
+	return strings.ReplaceAll(s, " ", "_")
+}
+
+func mustHexBytes(s string) []byte {
+	b, err := hex.DecodeString(s)
+	if err != nil {
+		ev.Fatal("hex: %v", err)
+	}
+	return b
+}
